@@ -92,6 +92,7 @@ def tone_bounds(t, c):
 def run(ctx):
     broken = common.proof_stage(ctx, ["SoxrModel.Properties.C01"], "C01", exes=(), gens=())
     S.harness()
+    S.set_active("C01")
     rng = ctx.rng
     quick = ctx.quick
 
@@ -201,8 +202,10 @@ def run(ctx):
     ctx.count("sine_fits", n_fits)
 
     # ---------------- I/O formats against the double run (each format's own resolution added)
-    fmt = S.pool_map(job_format, [(c, it, ot, rng.below(1 << 30)) for c in S.pick_any(rng, 8 if quick else 120)
-                                  for (it, ot) in [(3, 3), (2, 2), (0, 0), (3, 1), (1, 2)]][: (24 if quick else 600)])
+    pairs = [(3, 3), (2, 2), (0, 0), (3, 1), (1, 2), (0, 3), (2, 0), (3, 2), (2, 3), (1, 3)]
+    fmt_cfgs = S.pick_any(rng, 8 if quick else 120) + [sel_f[rng.below(len(sel_f))]["members"][0] for _ in range(16 if quick else 200)]
+    fmt = S.pool_map(job_format, [(c, it, ot, rng.below(1 << 30)) for c in fmt_cfgs
+                                  for (it, ot) in [pairs[rng.below(len(pairs))] for _ in range(3)]][: (72 if quick else 900)])
     n_fmt = 0
     for t in fmt:
         if "error" in t:
@@ -211,6 +214,10 @@ def run(ctx):
         if "skipped" in t:
             continue
         n_fmt += 1
+        if t["diff"] > t["bound"] and t["diff"] <= t["bound"] + S.sg4_cap(t.get("pclass", ""), t.get("gain_eff", 1.0), t.get("bits", 33)):
+            ctx.known("F-SG4", "%s: datatypes %d -> %d (gain %.3g carried by the poly-phase stage): output differs from the float64 run of the same samples by "
+                               "%.3g of full scale [plan %s, engine %s]" % (t["label"], t["itype"], t["otype"], t["gain_eff"], t["diff"], t["plan"], t["engine"]))
+            continue
         if t["bound"] > 0:
             worst["format_diff/resolution"] = max(worst.get("format_diff/resolution", 0), t["diff"] / t["bound"])
         else:
@@ -231,8 +238,10 @@ def run(ctx):
                       % name, {"missing_class": name, "classes_hit": sorted(classes_hit)}, no_input=True)
     ctx.count("f1_signature_configurations_set_aside", len(f1_seen))
     for txt in S.pool_map(S.probe_f1, [r["cfg"] for r in f1_seen[:4]]):
-        if txt:
+        if txt and "F1" in S.ACTIVE:
             ctx.known("F1", txt)
+        elif txt:
+            ctx.violation("C01: " + txt, {"finding": "F1 is not listed as known for this property any more", "what": txt}, no_input=True)
 
     ctx.cov["worst_margins"] = {k: round(v, 5) for k, v in sorted(worst.items())}
     ctx.cov["worst_margins_note"] = "ratios measured/bound (< 1 holds); gain_db_class_* are the largest |gain error| in dB per roll-off class"
@@ -311,7 +320,8 @@ def job_format(args):
         # both runs feed the engine the same values up to an exact power-of-two factor, so only the output conversion differs:
         # integer rounding (0.5 LSB) + TPDF dither (31/32 LSB) for int16, 0.5 LSB for int32, the mantissa for float32
         bound = S.out_resolution(ot)
-        return {"cfg": c, "label": S.cfg_label(c), "itype": it, "otype": ot, "seed": seed, "diff": diff, "bound": bound}
+        return {"cfg": c, "label": S.cfg_label(c), "itype": it, "otype": ot, "seed": seed, "diff": diff, "bound": bound,
+                "pclass": S.plan_class(info), "gain_eff": fs_in[ot] / fs_in[it], "plan": S.plan_signature(info), "engine": info["engine"], "bits": S.bits_of(info)}
     except Exception:
         import traceback
         return {"cfg": c, "label": S.cfg_label(c), "error": traceback.format_exc()[-1500:]}
